@@ -11,10 +11,12 @@ Definition num_facts : Prop :=
   (forall z, (0 < z < 2147483648)%Z -> truthy (num_encode z) = true) /\
   (forall v z, num_operand 4 v = Some z -> truthy v = negb (z =? 0)%Z).
 
-(* what the theorem needs to know about keys: the script's keys are acceptable encodings for the
-   signature version, and a pushed key the interpreter manages to parse is one as well *)
+(* what the theorem needs to know about keys and signatures: the script's keys are acceptable
+   encodings for the signature version, a pushed key the interpreter manages to parse is one as
+   well, and the empty byte string is not a valid signature *)
 Definition keys_ok (e : env) (ke : keyenv) (kp : bytes -> bool) : Prop :=
-  (forall k, e_keyok e (kb ke k) = true) /\ (forall b, kp b = true -> e_keyok e b = true).
+  (forall k, e_keyok e (kb ke k) = true) /\ (forall b, kp b = true -> e_keyok e b = true) /\
+  (forall k, e_sigok e k [] = false).
 
 Definition items_small (items : list bytes) : Prop := Forall (fun b => blen b < 2147483648) items.
 
@@ -22,24 +24,24 @@ Lemma interp_sound_sidecond (e : env) (ke : keyenv) (kp : bytes -> bool) :
   num_facts -> keys_ok e ke kp ->
   e_sequence e <> SEQ_FINAL -> 2 <= e_txversion e ->
   forall (m : ms) (t : ty) (items : list bytes) (cs : list constr),
-    type_of m = ROk t -> c_base (t_corr t) = BB -> iwf m -> icover m -> items_small items ->
+    type_of m = ROk t -> c_base (t_corr t) = BB -> iwf e m -> icover m -> items_small items ->
     interp e ke kp m (astack_of_items items) = IAccept cs ->
     accepts e (enc ke m) (rev items) = true.
 Proof.
-  intros [H1 [H2 [H3 H4]]] [Hk1 Hk2] Hseq Hver m t items cs Ht Hb Hwf Hc Hsz H.
+  intros [H1 [H2 [H3 H4]]] [Hk1 [Hk2 Hk3]] Hseq Hver m t items cs Ht Hb Hwf Hc Hsz H.
   rewrite interp_eq_rec in H.
-  exact (interp_rec_sound e ke kp H1 H2 H3 H4 Hseq Hver Hk1 Hk2 m t items cs Ht Hb Hwf Hc Hsz H).
+  exact (interp_rec_sound e ke kp H1 H2 H3 H4 Hseq Hver Hk1 Hk2 Hk3 m t items cs Ht Hb Hwf Hc Hsz H).
 Qed.
 
 (* non-vacuity: the hypotheses about the environment are satisfiable together with an accepting run *)
 Lemma sidecond_nonvacuous :
   keys_ok (toy_env 100 4294967294 2) toy_ke toy_kp /\
   e_sequence (toy_env 100 4294967294 2) <> SEQ_FINAL /\ 2 <= e_txversion (toy_env 100 4294967294 2) /\
-  (exists t, type_of m_after = ROk t /\ c_base (t_corr t) = BB) /\ iwf m_after /\ icover m_after /\
+  (exists t, type_of m_after = ROk t /\ c_base (t_corr t) = BB) /\ iwf (toy_env 100 4294967294 2) m_after /\ icover m_after /\
   items_small [a_sig] /\
   interp (toy_env 100 4294967294 2) toy_ke toy_kp m_after (astack_of_items [a_sig]) = IAccept [CsPk [2; 0] a_sig; CsAfter 10].
 Proof.
-  split; [split; intros; reflexivity|]. split; [discriminate|]. split; [cbn; lia|].
+  split; [repeat split; intros; reflexivity|]. split; [discriminate|]. split; [cbn; lia|].
   split; [exact m_after_typed|]. split; [cbn; lia|]. split; [cbn; tauto|].
   split; [repeat constructor|]. vm_compute. reflexivity.
 Qed.
